@@ -289,8 +289,12 @@ def carried(name):
 
 def expected(case):
     """The report the property texts demand for this tree."""
+    return expected_of(abstract(case), case["lic"])
+
+
+def expected_of(files, lic):
+    """The report the property texts demand for the covered files `files` (as `abstract` gives them) and the LICENSES/ names `lic`."""
     t = table()
-    files = abstract(case)
     used = {}  # id -> set of files
     for p, rd, cop, exprs in files:
         if rd:
@@ -300,7 +304,7 @@ def expected(case):
     provided = {}  # id -> path
     noext = {}
     invalid_names = {}
-    for n in case["lic"]:
+    for n in lic:
         last = n.rsplit("/", 1)[-1]
         if last.endswith(".license") and last != ".license":
             continue
@@ -334,8 +338,11 @@ def expected(case):
 
 def clauses(case):
     """C01 (a)-(d) verbatim over the ground truth; returns the list of violated clause letters."""
+    return clauses_of(abstract(case), case["lic"])
+
+
+def clauses_of(files, lic):
     t = table()
-    files = abstract(case)
     viol = set()
     used = set()
     for p, rd, cop, exprs in files:
@@ -347,7 +354,7 @@ def clauses(case):
         for ks in exprs:
             used.update(ks)
     provided = set()
-    for n in case["lic"]:
+    for n in lic:
         last = n.rsplit("/", 1)[-1]
         if last.endswith(".license") and last != ".license":
             continue
